@@ -19,7 +19,7 @@ TInit ==
     /\ l = 1 /\ dead = TRUE /\ idx = -1 /\ nbad = 0
     /\ sc = [kind |-> "unrecognised", wok |-> TRUE, rcvWhen |-> "never", cancelWhen |-> "never"]
     /\ pc = "idle" /\ written = FALSE /\ nwrites = 0 /\ sent = 0 /\ ret = "none"
-    /\ cancelled = FALSE /\ rcv = "absent"
+    /\ cancelled = FALSE /\ rcv = "absent" /\ counted = 0
 
 Bad(what) ==
     /\ PrintT(<<"BAD", ToJson([scen |-> idx, line |-> l, what |-> what])>>)
@@ -43,7 +43,11 @@ Event(r) ==
       [] r.k = "recv"   -> IF ENABLED Send /\ r.same /\ r.pidok /\ r.credok /\ r.afterwrite
                            THEN Send /\ Ok ELSE Bad("recv")
       [] r.k = "return" ->
-            IF pc = "returned" /\ ret = RetOf(r) /\ (r.err => r.wraps)
+            \* C19 on the returned worker: an emitted event was counted exactly once, under a label with its outcome
+            IF written /\ "ctr" \in DOMAIN r /\ ~(r.ctr = 1 /\ r.ctrlabel = (IF sc.kind = "accepted" THEN "success" ELSE "failure"))
+            THEN Bad("counter")
+            ELSE IF "ctr" \in DOMAIN r /\ r.ctr > 1 THEN Bad("counter")
+            ELSE IF pc = "returned" /\ ret = RetOf(r) /\ (r.err => r.wraps)
             THEN UNCHANGED vars /\ Ok
             ELSE IF pc = "sending" /\ ENABLED Abort /\ ~r.err
             THEN Abort /\ Ok
@@ -62,6 +66,7 @@ Step ==
             /\ pc' = "idle" /\ written' = FALSE /\ nwrites' = 0 /\ sent' = 0 /\ ret' = "none"
             /\ cancelled' = (r.sc.cancelWhen = "before")
             /\ rcv' = IF r.sc.rcvWhen = "start" THEN "ready" ELSE "absent"
+            /\ counted' = 0
        ELSE IF dead THEN UNCHANGED <<vars, dead, idx, nbad>>
        ELSE /\ idx' = idx
             /\ IF r.k = "end"
